@@ -6,11 +6,24 @@ import Dawn.Model.Glob
     tree  <p1>,<p2>,…          → `ok <s-expression>`               | `err …`
     match <p1>,<p2>,… <path>   → `ok <0|1 set matches> <0|1 union of the patterns by the specification>` | `err …`
 
+    select <inc> <exc> <f1>;<f2>;…   → `ok <selected files>`   (the filter of the glob() builtins)
+    loaded <ignore> <d1>;<d2>;…      → `ok <package dirs that load>` (Project.loadPackage + ignore list)
+
   patterns and path are hex-encoded UTF-8; an empty list is `.`; an empty string is `-`. -/
 open Dawn.Glob Driver
 
 def parsePats (s : String) : Option (List (List Char)) :=
   if s == "." then some [] else (s.splitOn ",").mapM fun h => (unhexStr h).map String.toList
+
+def parseList (s : String) : Option (List (List Char)) :=
+  if s == "." then some [] else (s.splitOn ";").mapM fun h => (unhexStr h).map String.toList
+
+def showList (l : List (List Char)) : String :=
+  if l.isEmpty then "." else ";".intercalate (l.map fun p => hexStr (String.ofList p))
+
+/-- components of a package directory path below the root (`""` is the root itself) -/
+def splitDirs (d : List Char) : List (List Char) :=
+  if d.isEmpty then [] else (String.ofList d).splitOn "/" |>.map String.toList
 
 def errStr : Err → String
   | .trailingEscape => "err trailing"
@@ -36,6 +49,17 @@ def step (line : String) : String :=
         s!"ok {if m then 1 else 0} {if u then 1 else 0}"
       | .error e, _ => errStr e
       | _, .error e => errStr e
+    | _, _ => "bad-input"
+  | ["select", inc, exc, files] => match parsePats inc, parsePats exc, parseList files with
+    | some gi, some ge, some fs => match compileGlobs gi, compileGlobs ge with
+      | .ok ri, .ok re => "ok " ++ showList (globSelect ri re fs)
+      | .error e, _ => errStr e
+      | _, .error e => errStr e
+    | _, _, _ => "bad-input"
+  | ["loaded", ign, dirs] => match parsePats ign, parseList dirs with
+    | some gi, some ds => match compileGlobs gi with
+      | .ok r => "ok " ++ showList (ds.filter fun d => packageLoaded (some r) (splitDirs d))
+      | .error e => errStr e
     | _, _ => "bad-input"
   | _ => "bad-op"
 
